@@ -2,7 +2,7 @@
    spec is written from the property text: it looks at what the implementation
    answered (observed) and at the ground truth the driver put into the input; it never calls model. *)
 From OIDC Require Import Lib.
-From OIDC Require Export C19_Discovery.  (* the case files import this module only *)
+From OIDC Require Export C19_Discovery C19_Tokens.  (* the case files import this module only *)
 
 Inductive iss_api := ApiValidate | ApiNewProvider | ApiHostPath | ApiForwardedPath.
 
@@ -20,8 +20,12 @@ Inductive input :=
 | IIssuer (api : iss_api) (raw : string) (hostless : bool) (o : url_oracle) (insecure : bool)
     (* issuer string (or path for the dynamic strategies) given to the constructor;
        hostless: the driver built it without a host; o: what url.Parse says *)
-| IDiscover (asked doc_iss : string).
+| IDiscover (asked doc_iss : string)
     (* client.Discover(asked) against a server whose document says doc_iss *)
+| ITokens (r : router) (c : config) (q : request) (k : client_kind) (jwt : bool) (fls : list flow).
+    (* while sending q: fetch the document, then run every flow of fls as a client of kind k
+       (registered for everything, credentials sent the way it is registered) whose access tokens are
+       JWTs iff jwt, and read the iss claim of every JWT that comes back *)
 
 Inductive observed :=
 | ODoc (ok : bool) (iss : string) (adv : list (option string)) (routed : list bool)
@@ -33,6 +37,7 @@ Inductive observed :=
 | OReqObj (advertised : bool) (res : ro_result)
 | OIssuer (res : iss_result) (split : option url_split)
 | ODiscover (accepted : bool)
+| OTokens (ok : bool) (iss : string) (results : list flow_result)
 | OPanic.
 
 (* ------------------------------------------------------------------ model *)
@@ -67,6 +72,7 @@ Definition model (i : input) : observed :=
                end)
               (if o_error o then None else Some (split_url raw))
   | IDiscover asked d => ODiscover (discover_check asked d)
+  | ITokens r c q k jwt fls => OTokens true (doc_issuer r c q) (map (flow_model r c q k jwt) fls)
   end.
 
 (* ------------------------------------------------------------------ the property *)
@@ -138,6 +144,18 @@ Definition bad_issuer (api : iss_api) (raw : string) (hostless insecure : bool) 
   | ApiHostPath | ApiForwardedPath => has_char qmark raw || has_char hash raw
   end.
 
+(* the issuer put into an issued token is the document's issuer: every JWT a flow handed out
+   (ID token, JWT access token) says iss = the issuer of the document; no flow panics *)
+Definition iss_is (doc_iss : string) (t : option string) : bool :=
+  match t with Some s => String.eqb s doc_iss | None => true end.
+
+Definition spec_flow (doc_iss : string) (res : flow_result) : bool :=
+  match res with
+  | FRPanic => false
+  | FRNone => true
+  | FRIssued id_iss at_iss => iss_is doc_iss id_iss && iss_is doc_iss at_iss
+  end.
+
 Definition spec (i : input) (o : observed) : bool :=
   match i, o with
   | IDoc r c q probes, ODoc ok iss adv routed fetched tok =>
@@ -165,6 +183,11 @@ Definition spec (i : input) (o : observed) : bool :=
       if bad_issuer api raw hostless insecure then negb (iss_eqb res IssOk) else true
   | IDiscover asked d, ODiscover accepted =>
       if String.eqb asked d then true else negb accepted
+  | ITokens r c q k jwt fls, OTokens ok iss results =>
+      ok
+      && String.eqb iss (issuer_of c q)       (* the issuer the strategy derives from THIS request *)
+      && Nat.eqb (List.length results) (List.length fls)
+      && forallb (spec_flow iss) results
   | _, _ => false
   end.
 
@@ -186,6 +209,7 @@ Definition obs_eqb (a b : observed) : bool :=
   | OReqObj a1 r1, OReqObj a2 r2 => Bool.eqb a1 a2 && ro_eqb r1 r2
   | OIssuer r1 s1, OIssuer r2 s2 => iss_eqb r1 r2 && option_eqb split_eqb s1 s2
   | ODiscover a1, ODiscover a2 => Bool.eqb a1 a2
+  | OTokens k1 i1 r1, OTokens k2 i2 r2 => Bool.eqb k1 k2 && String.eqb i1 i2 && list_eqb flow_result_eqb r1 r2
   | OPanic, OPanic => true
   | _, _ => false
   end.
@@ -195,6 +219,9 @@ Definition strategy_class (c : config) : nat :=
 
 Definition count_handled (l : list answer) : nat :=
   List.length (filter (fun a => answer_eqb a AHandled) l).
+
+Definition count_issued (l : list flow_result) : nat :=
+  List.length (filter (fun x => match x with FRIssued _ _ => true | _ => false end) l).
 
 (* decision-path class of the model run; 0 = the first-guard reject *)
 Definition path (i : input) (o : observed) : nat :=
@@ -216,6 +243,12 @@ Definition path (i : input) (o : observed) : nat :=
       | IssURL => 61 | IssMissingHost => 62 | IssHTTPS => 63 | IssPath => 64 | IssOk => 65
       end
   | IDiscover _ _, ODiscover a => 70 + (if a then 1 else 0)
+  | ITokens r c q k jwt fls, OTokens _ _ results =>
+      (* how many flows issued, which strategy, JWT access tokens or not; nothing issued = trivial *)
+      match count_issued results with
+      | 0 => 0
+      | n => 80 + n + 12 * strategy_class c + 36 * (if jwt then 1 else 0)
+      end
   | _, _ => 0
   end.
 
